@@ -433,6 +433,8 @@ CONSTRUCTS = {
     'item': ('\\begin{itemize}\\item ', '\\end{itemize}'),
     # a box holding a closed inner box and a complete inline formula before its own content (only meaningful in math)
     'boxmix': ('\\mbox{b \\textbf{c} $f$ ', '}'),
+    # the LAST cell of a row: its group is closed by the row end; the probe sits in the first cell of the next row
+    'lastcell': ('\\begin{tabular}{ll}u&', None),
 }
 # inside math only these may nest (text constructs in math are not well-formed LaTeX)
 IN_MATH = ('brace', 'bgroup', 'boxmix')
@@ -514,7 +516,7 @@ def program_b(chain, masks, in_math_ok=True):
             for s in stack:
                 s['q'] = bool(lvl % 2)
         body += PROBE
-        exp.append(('bcf' if c == 'boxmix' else '') + probe_text(st))
+        exp.append(('bcf' if c == 'boxmix' else 'u' if c == 'lastcell' else '') + probe_text(st))
     for i in reversed(range(len(chain))):
         c = chain[i]
         st = stack.pop()
@@ -522,11 +524,36 @@ def program_b(chain, masks, in_math_ok=True):
             # the next cell of the same row starts from the state outside the first cell
             body += '&' + PROBE + '\\\\ r&s\\end{tabular}'
             exp.append(probe_text(st) + 'rs')
+        elif c == 'lastcell':
+            # the first cell of the next row starts from the state outside the table as well
+            body += '\\\\ ' + PROBE + '&s\\end{tabular}'
+            exp.append(probe_text(st) + 's')
         else:
             body += CONSTRUCTS[c][1]
         body += PROBE
         exp.append(probe_text(st))
     return src + body, ''.join(exp)
+
+
+FRAMES = [   # (source, expected text): empty arguments of macros that parse without a push/pop of their own must not
+             # leave a frame behind in which later definitions get lost
+    ('\\documentclass[]{article}\\def\\zzA{A}\\begin{document}x\\zzA y\\end{document}', 'xAy'),
+    ('\\documentclass{article}\\usepackage[]{ifthen}\\def\\zzA{A}\\begin{document}x\\zzA y\\end{document}', 'xAy'),
+    ('\\def\\zzA{A}\\ifx{}{}s\\else d\\fi\\def\\zzB{B}{\\zzA\\zzB}\\zzA\\zzB', 'sABAB'),
+    ('\\documentclass[]{article}\\begin{document}\\section{}\\textbf{}\\def\\zzA{A}{\\zzA}\\zzA\\end{document}', 'AA'),
+]
+
+
+def run_block_frames(block):
+    rep = core.Report()
+    for src, exp in FRAMES:
+        obs = observe_b(src)
+        want = {'text': exp, 'depth': 1}
+        rep.case(key=('frames', src), nontrivial=True, outcome=(obs.get('text'), obs.get('depth')))
+        rep.count('argument_frames')
+        if obs != want:
+            rep.violation({'kind': 'frames', 'src': src, 'text': exp}, want, obs, 'source: ' + src)
+    return rep.close_block()
 
 
 def observe_b(src):
@@ -575,6 +602,10 @@ def replay(case):
             return {'verdict': 'ok', 'expected': None, 'observed': None, 'detail': ''}
         return {'verdict': 'violation', 'expected': info.get('expected'), 'observed': info.get('observed'),
                 'detail': 'step %s event %s' % (info.get('step'), info.get('event'))}
+    if case['kind'] == 'frames':
+        obs = observe_b(case['src'])
+        want = {'text': case['text'], 'depth': 1}
+        return {'verdict': 'ok' if obs == want else 'violation', 'expected': want, 'observed': obs, 'detail': case['src']}
     if case['kind'] == 'api_bad':
         st, info = close_badly_nested([tuple(e) for e in case['history']], tuple(case['bad']))
         if st == 'ok':
@@ -603,6 +634,7 @@ def run(tier, seed, rep):
         blocks = [([c], maskset) for c in chains]
     blocks = core.rotate(blocks, seed)
     core.merge_all(run_block_b, blocks, rep, chunksize=4)
+    rep.merge(run_block_frames(None))
     return {'exhaustive': not info['capped'], 'bounds': {'api_history_depth': info['depth_completed'],
                                                          'api_levels': info['levels'], 'capped': info['capped'],
                                                          'program_nesting_depth': pdepth, 'constructs': list(CONSTRUCTS),
